@@ -149,7 +149,7 @@ def run(ctx):
         path = ctx.replay_line_file()
         env["VERIF_REPLAY"] = path
         head = open(path).read()
-        replay_kind = "legacy" if "kind=legacy" in head else ("handler" if "kind=handler" in head else "client")
+        replay_kind = "shared" if "kind=shared" in head else "legacy" if "kind=legacy" in head else ("handler" if "kind=handler" in head else "client")
     if replay_kind in (None, "client"):
         rc, out, outdir = ctx.go_test("./server/internal/client/ollama/", OVERLAY, "^TestVerifC09$", env=env)
         if rc != 0:
@@ -166,6 +166,36 @@ def run(ctx):
             ctx.violation("driver-failed", "", out[-1500:], no_input=True)
         ctx.read_stats(outdir)
         ctx.l1(outdir, label="legacy")
+        l1_inputs(ctx, outdir)
+        ctx.classify(ctx.l2(outdir))
+    if replay_kind in (None, "shared"):
+        # two legacy pushes sharing one upload.  First, in a process of its own, the scenario that kills the
+        # process on a tree with finding F19 (the joined push leaves while it is the only waiter, then the
+        # owner's session POST succeeds: blobUpload.Run dereferences a nil part hash).
+        safe = False
+        if not ctx.replay:
+            rc, out, outdir0 = ctx.go_test("./server/", OVERLAY_LEGACY, "^TestVerifC09SharedCancelCrash$", env=env, timeout=900)
+            import os
+            safe = rc == 0 and os.path.exists(os.path.join(outdir0, "runcancel.txt"))
+            if rc != 0:
+                if "nil pointer dereference" in out and "blobUpload).Run" in out:
+                    ctx.classify([{"kind": "push-cancel-crashes-server",
+                                   "case": "shared: push A opens the upload session (POST held); push B joins the upload; B's context ends "
+                                           "(only waiter: release() cancels the run context); the POST is answered 202 + Location",
+                                   "detail": "blobUpload.Run panics: nil pointer dereference (part hash) " + " ".join(
+                                       l.strip() for l in out.splitlines() if "upload.go" in l)[:300]}])
+                else:
+                    ctx.violation("driver-failed", "", out[-1500:], no_input=True)
+        ctx.coverage["shared_run_cancel_safe"] = safe
+        env4 = dict(env)
+        env4["VERIF_NSHARED"] = ctx.scale(500, 6000)
+        if safe:
+            env4["VERIF_C09_RUNCANCEL_SAFE"] = "1"
+        rc, out, outdir = ctx.go_test("./server/", OVERLAY_LEGACY, "^TestVerifC09LegacyShared$", env=env4, timeout=1800)
+        if rc != 0:
+            ctx.violation("driver-failed", "", out[-1500:], no_input=True)
+        ctx.read_stats(outdir)
+        ctx.l1(outdir, label="shared")
         l1_inputs(ctx, outdir)
         ctx.classify(ctx.l2(outdir))
     if replay_kind in (None, "handler"):
